@@ -18,7 +18,7 @@ use crate::parser::{
     FrameStream, data, event_id, expected_version, keyword, number_u64, partition_key, stream_id,
     string,
 };
-use crate::request::{HandleRequest, array, map, number, simple_str};
+use crate::request::{HandleRequest, array, blob_str, map, number, simple_str};
 use crate::server::Conn;
 
 /// Append multiple events to streams in a single transaction.
@@ -318,7 +318,7 @@ impl From<EventInfo> for BytesFrame {
     fn from(info: EventInfo) -> Self {
         map(indexmap! {
             simple_str("event_id") => simple_str(info.event_id.to_string()),
-            simple_str("stream_id") => simple_str(info.stream_id.to_string()),
+            simple_str("stream_id") => blob_str(info.stream_id.to_string()),
             simple_str("stream_version") => number(info.stream_version as i64),
             simple_str("timestamp") => number((info.timestamp / 1_000_000) as i64),
         })
